@@ -149,6 +149,23 @@ pub fn gen(rng: &mut Rng, thorough: bool, out: &mut Vec<String>) {
         out.push(format!("bfe cyc 0 {}", m));
         out.push(format!("xfe cyc (0;0;0) {}", m));
     }
+    // BULK operations at sizes no dispatch threshold of the current code cares about: a future "parallelise above 2^k
+    // elements" must not change a result (the whole stream is also run under RAYON_NUM_THREADS=3).  Operands are derived
+    // from the seed inside the op, the implementation is checked by its own oracle, the model has no opinion (skip).
+    {
+        let sizes: &[u64] = if thorough {
+            &[4095, 4096, 4097, 16383, 16384, 16385, 32769, 65536, 65539, 131071, 262147, 1048579]
+        } else {
+            &[4097, 16383, 16384, 16385, 65539, 262147]
+        };
+        for &n in sizes {
+            let s = rng.next();
+            out.push(format!("bfe bulk batchinv {} {}", s, n));
+            out.push(format!("bfe bulk sum {} {}", s, n));
+            out.push(format!("xfe bulk batchinv {} {}", s, n));
+            out.push(format!("xfe bulk sum {} {}", s, n));
+        }
+    }
     for n in [1u64, 2, 64, 4096] {
         out.push(format!("bfe cycrun 0 {}", n));
         out.push(format!("xfe cycrun (0;0;0) {}", n));
@@ -333,6 +350,39 @@ fn cyc_oracle(len: usize, elem_ok: impl Fn(usize) -> bool, next_is_one: bool, ea
 pub fn run_bfe_more(op: &str, a: &[Arg], st: &mut Stats) -> Option<Out> {
     let okn = |r: BFieldElement| format!("ok:{}", r.raw_u64());
     Some(match (op, a) {
+        ("bulk", [what, seed, n]) => {
+            let (what, seed, n) = (what.sym()?, seed.u64()?, n.usize()?);
+            if n > (1 << 21) {
+                return None;
+            }
+            let mut r = Rng::new(seed);
+            // non-zero elements, with boundary values mixed in
+            let xs: Vec<BFieldElement> = (0..n)
+                .map(|i| {
+                    let v = match i % 7 {
+                        0 => 1,
+                        1 => P - 1,
+                        2 => 1 << 32,
+                        _ => 1 + r.next() % (P - 1),
+                    };
+                    BFieldElement::new(v)
+                })
+                .collect();
+            st.hit(&format!("bulk:{}:n>=2^{}", what, (n.max(1)).ilog2()));
+            match what {
+                "batchinv" => {
+                    let rs = BFieldElement::batch_inversion(xs.clone());
+                    let bad = if rs.len() != xs.len() { Some(usize::MAX) } else { (0..n).find(|&i| mulp(rs[i].value(), xs[i].value()) != 1 || rs[i].raw_u64() >= P) };
+                    Out::ok(format!("ok:{}", n)).with_oracle(bad.is_none(), &format!("bulk batch_inversion of {} elements: entry {:?} is not the canonical inverse", n, bad))
+                }
+                "sum" => {
+                    let r: BFieldElement = xs.iter().copied().sum();
+                    let want = xs.iter().fold(0u64, |acc, x| addp(acc, x.value()));
+                    Out::ok(format!("ok:{}", n)).with_oracle(r.value() == want && r.raw_u64() < P, &format!("bulk sum of {} elements wrong or non-canonical", n))
+                }
+                _ => return None,
+            }
+        }
         ("incr", [x]) | ("decr", [x]) => {
             let x = x.bfe_raw()?;
             let mut r = x;
@@ -596,6 +646,43 @@ pub fn run_xfe_more(op: &str, a: &[Arg], st: &mut Stats) -> Option<Out> {
     let okx = |r: &XFieldElement| format!("ok:{}", fmt_xfe_raw(r));
     let one = [1u64, 0, 0];
     Some(match (op, a) {
+        ("bulk", [what, seed, n]) => {
+            let (what, seed, n) = (what.sym()?, seed.u64()?, n.usize()?);
+            if n > (1 << 21) {
+                return None;
+            }
+            let mut r = Rng::new(seed ^ 0x5eed);
+            let xs: Vec<XFieldElement> = (0..n)
+                .map(|i| {
+                    let c = |r: &mut Rng| BFieldElement::new(r.next() % P);
+                    match i % 5 {
+                        0 => XFieldElement::new([BFieldElement::new(1), BFieldElement::new(0), BFieldElement::new(0)]),
+                        1 => XFieldElement::new([BFieldElement::new(0), BFieldElement::new(P - 1), BFieldElement::new(0)]),
+                        _ => XFieldElement::new([BFieldElement::new(1 + r.next() % (P - 1)), c(&mut r), c(&mut r)]),
+                    }
+                })
+                .collect();
+            st.hit(&format!("xbulk:{}:n>=2^{}", what, (n.max(1)).ilog2()));
+            match what {
+                "batchinv" => {
+                    let rs = XFieldElement::batch_inversion(xs.clone());
+                    let bad = if rs.len() != xs.len() { Some(usize::MAX) } else { (0..n).find(|&i| xv(&(rs[i] * xs[i])) != one || rs[i].coefficients.iter().any(|c| c.raw_u64() >= P)) };
+                    Out::ok(format!("ok:{}", n)).with_oracle(bad.is_none(), &format!("bulk batch_inversion of {} extension-field elements: entry {:?} is not the canonical inverse", n, bad))
+                }
+                "sum" => {
+                    let r: XFieldElement = xs.iter().copied().sum();
+                    let mut want = [0u64; 3];
+                    for x in &xs {
+                        let v = xv(x);
+                        for k in 0..3 {
+                            want[k] = addp(want[k], v[k]);
+                        }
+                    }
+                    Out::ok(format!("ok:{}", n)).with_oracle(xv(&r) == want && r.coefficients.iter().all(|c| c.raw_u64() < P), &format!("bulk sum of {} extension-field elements wrong or non-canonical", n))
+                }
+                _ => return None,
+            }
+        }
         ("newconst", [b]) => {
             let b = b.bfe_raw()?;
             let r = XFieldElement::new_const(b);
